@@ -151,8 +151,11 @@ def check_validity_group(case, agg):
         # members' own verdicts are what a standalone run gives (no cross-path signals in these programs). Not asked of
         # groups with an unbuildable member: in breadth-first runs its per-line failure makes the members after it skip
         # every line (observation O8 in DESIGN.md) - the conjunction obligations below are still checked for them.
+        uses_fail_all = any("fail_all" in member_text(p) for p in members)
         for j, p in enumerate(members if case.get("csvpaths_policy") is None else []):
             sv = standalone_verdict(p, rows, pol)
+            if uses_fail_all and sv is True and verdicts[j] is False:
+                continue  # failed by a sibling's fail_all(): allowed (only a member that fails itself MUST be False)
             if sv is not None and sv != verdicts[j]:
                 witness["standalone"] = (j, sv)
                 return "member-verdict-differs-from-standalone", witness
